@@ -3,6 +3,7 @@ package c08
 import (
 	"fmt"
 
+	"github.com/codelaboratoryltd/bng/pkg/radius"
 	"pgregory.net/rapid"
 
 	"bngverif/internal/vstat"
@@ -16,6 +17,41 @@ type genMode struct {
 	fewAdv    bool // keep advances short (crash enumeration: fewer markers)
 	noInterim bool
 	restarts  bool // bias towards gracefulStop/crash ops and outages around them
+	latPct    int  // percentage of histories that carry request latencies (virtual time, latency_test.go)
+	slow      bool // slow-server histories: latencies weighted to > RetryBaseDelay + tick, records queued around them
+}
+
+// latency values (ms) by class, relative to RetryBaseDelay = 1 s, the 1 s retry tick and the 3 s client timeout
+var (
+	latSub  = []int{1, 300, 999}      // below the base delay
+	latMid  = []int{1001, 1500, 1999} // above the base delay, inside base + one tick
+	latHigh = []int{2001, 2500, 2999} // beyond base + one tick, just inside the client timeout
+	latLost = []int{3001, 5001}       // beyond the client timeout (beyond the manager's 5 s context): lost
+)
+
+// genLat draws the latencies of the first sends of one (session, kind) stream; later sends travel in no time.
+func genLat(rt *rapid.T, label string, slow bool) []int {
+	n := rapid.IntRange(1, 4).Draw(rt, label+"N")
+	out := make([]int, 0, n)
+	for i := 0; i < n; i++ {
+		c := rapid.IntRange(0, 9).Draw(rt, label+"Class")
+		if slow { // 0 | sub | mid mid | high x5 | lost
+			c = []int{0, 3, 4, 4, 6, 6, 6, 6, 6, 9}[c]
+		}
+		switch {
+		case c <= 2:
+			out = append(out, 0)
+		case c == 3:
+			out = append(out, rapid.SampledFrom(latSub).Draw(rt, label))
+		case c <= 5:
+			out = append(out, rapid.SampledFrom(latMid).Draw(rt, label))
+		case c <= 8:
+			out = append(out, rapid.SampledFrom(latHigh).Draw(rt, label))
+		default:
+			out = append(out, rapid.SampledFrom(latLost).Draw(rt, label))
+		}
+	}
+	return out
 }
 
 var edge64 = []uint64{0, 1, 1<<32 - 1, 1 << 32, 1<<32 + 1, 1<<33 + 5, 1<<63 - 1, 1 << 63, 1<<64 - 1, 1<<64 - 2, 0xFFFFFFFF00000000, 0x00000001FFFFFFFF}
@@ -53,6 +89,26 @@ func genPattern(rt *rapid.T, label string, pNonEmptyPct int) []bool {
 
 func genHistory(rt *rapid.T, m genMode) *history {
 	h := &history{Plan: map[string][]bool{}}
+	withLat := m.latPct > 0 && rapid.IntRange(0, 99).Draw(rt, "withLat") < m.latPct
+	pct := func(normal, slow int) int {
+		if m.slow {
+			return slow
+		}
+		return normal
+	}
+	addLat := func(sid string) {
+		for _, k := range []struct {
+			kind string
+			pct  int
+		}{{"d", pct(35, 30)}, {"r", pct(60, 85)}, {"i", pct(30, 40)}} {
+			if rapid.IntRange(0, 99).Draw(rt, "lat"+k.kind+"Has") < k.pct {
+				if h.Lat == nil {
+					h.Lat = map[string][]int{}
+				}
+				h.Lat[sid+"|"+k.kind] = genLat(rt, "lat"+k.kind, m.slow)
+			}
+		}
+	}
 	h.Cfg = cfgSpec{
 		MaxRetries: rapid.SampledFrom([]int{3, 3, 4, 6, 10}).Draw(rt, "maxRetries"),
 		MaxDelayS:  rapid.SampledFrom([]int{2, 4, 8, 60}).Draw(rt, "maxDelay"),
@@ -60,6 +116,9 @@ func genHistory(rt *rapid.T, m genMode) *history {
 		InterimS:   rapid.SampledFrom([]int{10, 10, 20, 60}).Draw(rt, "interimS"),
 		Drain:      rapid.IntRange(0, 4).Draw(rt, "drain") > 0,
 		DownCode:   rapid.SampledFrom([]int{3, 2, 11, 42}).Draw(rt, "downCode"), // Access-Reject, Access-Accept, Access-Challenge, Disconnect-NAK
+	}
+	if m.slow && h.Cfg.Interim {
+		h.Cfg.InterimS = 10 // interims at every check tick: they overlap stops and other sends more often
 	}
 	if m.fewAdv && h.Cfg.MaxDelayS > 8 {
 		h.Cfg.MaxDelayS = 8
@@ -94,12 +153,18 @@ func genHistory(rt *rapid.T, m genMode) *history {
 		if p := genPattern(rt, "patStart", startPct); p != nil {
 			h.Plan[planKey(sp.ID, tStart)] = p
 		}
-		if p := genPattern(rt, "patStop", 50); p != nil {
+		if p := genPattern(rt, "patStop", pct(50, 70)); p != nil {
 			h.Plan[planKey(sp.ID, tStop)] = p
 		}
 		if p := genPattern(rt, "patInterim", 30); p != nil {
 			h.Plan[planKey(sp.ID, tInterim)] = p
 		}
+		if withLat && radius.VerifMarkersCompiledIn() {
+			addLat(sp.ID)
+		}
+	}
+	if withLat && !radius.VerifMarkersCompiledIn() {
+		addLat("*") // without the markers the sending session is unknown: one stream per kind
 	}
 	hz := h.Cfg.horizon()
 	deltas := []int{1, 1, 2, 3, 5, 10, 11, 21, hz}
@@ -144,6 +209,9 @@ func genHistory(rt *rapid.T, m genMode) *history {
 		if m.bigCtrs {
 			kinds = append(kinds, "counters", "counters", "advance")
 		}
+		if withLat {
+			kinds = append(kinds, "slow", "pause")
+		}
 		switch k := rapid.SampledFrom(kinds).Draw(rt, "op"); k {
 		case "advance":
 			h.Ops = append(h.Ops, op{K: "advance", D: rapid.SampledFrom(deltas).Draw(rt, "delta")})
@@ -152,6 +220,10 @@ func genHistory(rt *rapid.T, m genMode) *history {
 			h.Ops = append(h.Ops, op{K: "counters", S: s, In: genCounter(rt, "in"), Out: genCounter(rt, "out")})
 		case "outage":
 			h.Ops = append(h.Ops, op{K: "outage", On: rapid.IntRange(0, 2).Draw(rt, "on") > 0})
+		case "slow": // every request travels at least this long from now on (0 = back to the per-stream plan)
+			h.Ops = append(h.Ops, op{K: "slow", D: rapid.SampledFrom([]int{0, 0, 300, 1500, 2500, 2999, 3001}).Draw(rt, "slowMs")})
+		case "pause": // sub-second advance: shifts the phase of later operations against the 1 s retry tick
+			h.Ops = append(h.Ops, op{K: "pause", D: rapid.SampledFrom([]int{100, 500, 900}).Draw(rt, "pauseMs")})
 		case "start":
 			s, _ := pick(func(i int) bool { return !started[i] })
 			started[s], active[s] = true, true
